@@ -143,6 +143,14 @@ pub fn run(rep: &mut Report, tier: &str, seed: u64) {
             }
             let out_path = format!("{}/out-{}.json", work, oi);
             let _ = std::fs::remove_file(&out_path);
+            // the destination may exist already (an earlier, longer document): the file must hold exactly the new one
+            let mut stale_text: Option<String> = None;
+            if output && r.chance(1, 2) {
+                let stale = format!("{{\"stale\": \"{}\"}}\n", "x".repeat(r.range(10, 200000)));
+                let _ = std::fs::write(&out_path, &stale);
+                stale_text = Some(stale);
+                rep.count("output-file-pre-existing");
+            }
             let mut argv: Vec<String> = vec![tsg_path.clone(), src_path.clone()];
             if lazy { argv.push("--lazy".into()) }
             if quiet { argv.push("--quiet".into()) }
@@ -181,7 +189,9 @@ pub fn run(rep: &mut Report, tier: &str, seed: u64) {
                 rep.sample(json!({"argv": &argv[2..], "tsg": tsg, "source": src, "stdout": stdout.chars().take(200).collect::<String>()}));
             }
             // observed result in the model's terms
-            let file_written = std::path::Path::new(&out_path).exists();
+            // "written" = the destination exists and is not the untouched stale file put there before the run
+            let file_written = std::path::Path::new(&out_path).exists()
+                && match &stale_text { Some(st) => std::fs::read_to_string(&out_path).map(|t| &t != st).unwrap_or(true), None => true };
             let stdout_kind = if stdout.is_empty() {
                 "nothing"
             } else if jsonf && serde_json::from_str::<J>(&stdout).is_ok() {
